@@ -112,4 +112,91 @@ theorem source_kernels_match :
    CC.Src.src_threefish_R_1024, CC.Src.src_threefish_P_256, CC.Src.src_threefish_P_512,
    CC.Src.src_threefish_P_1024⟩
 
+/-- **Source tie, phase 3 (the glue of lib.rs).**  `tools/inventory_kernels_glue.py` regenerates, on every run, Lean
+    definitions from the Rust of `process_block` (checked `t.0 += byte_count_add`, `with_tweak`, `encrypt_block`,
+    `x ^ block`, `t.1 &= !T1_FLAG_FIRST`), `Default::default` (the configuration block, `state.t = (0, FIRST | MSG)`),
+    `Update::update` (`input_lazy` with the closure calling `process_block(state, block, $state_bits / 8)`),
+    `FixedOutputDirty::finalize_into_dirty` (`t.1 |= FINAL`, `pad_with::<ZeroPadding>().unwrap()`,
+    `process_block(.., pos)`, the output loop over `output.chunks_mut($state_bits / 8).enumerate()` with the counter
+    block `i as u64` and `chunk.copy_from_slice(&ctr.x.bytes()[..n])`) and `Reset::reset` (`*self = Self::default()`,
+    unconditionally) for the three `define_hasher!` instantiations; the model (`processBlock`, `default`, `update`,
+    `finalizeIntoDirty` with `outputLoop`, `reset`) equals them on the struct fields, for every state within the
+    block-buffer invariant (`buf.len() = B`, `pos ≤ B`), every input / output length, both profiles.  `Block<N>` is its byte
+    array (named primitive), the Threefish calls are the generated `threefish*_with_tweak` / `_encrypt_block`.
+    `Clone` is derived (`skein_structs`).  Panic messages are not compared.
+    Individual facts: `CC.Src.src_skein{256,512,1024}_*`, `CC.Src.src_skein_structs` (lean/CC/Skein/Src.lean). -/
+theorem source_glue_match :
+    CC.Gen.Kernels.skein_errors = [] ∧
+    (∀ (p : Profile) (st : State) (block : List (BitVec 8)) (k : Nat), block.length = 32 →
+      CC.Src.noMsg (CC.Gen.Kernels.skein256_process_block p st.t0 st.t1 st.x block k)
+        = CC.Src.noMsg (processBlock p skein256 st block k >>= fun s => .ok (CC.Src.skeinStateEnc s))) ∧
+    (∀ (p : Profile) (n : Nat), n * 8 < 2 ^ 64 →
+      CC.Src.noMsg (CC.Gen.Kernels.skein256_default p (BitVec.ofNat 64 n))
+        = CC.Src.noMsg (Model.default p skein256 n >>= fun h => .ok (CC.Src.skeinEnc h))) ∧
+    (∀ (p : Profile) (h : Hasher), h.buffer.buf.length = 32 → h.buffer.pos ≤ 32 → ∀ (data : List (BitVec 8)),
+      CC.Src.noMsg (CC.Gen.Kernels.skein256_update p h.state.t0 h.state.t1 h.state.x h.buffer data)
+        = CC.Src.noMsg (update p skein256 h data >>= fun h' => .ok (CC.Src.skeinEnc h'))) ∧
+    (∀ (p : Profile) (h : Hasher), h.buffer.pos ≤ 32 → h.buffer.buf.length = 32 → ∀ (output : List (BitVec 8)),
+      CC.Src.noMsg (CC.Gen.Kernels.skein256_finalize_into_dirty p h.state.t0 h.state.t1 h.state.x h.buffer output)
+        = CC.Src.noMsg (finalizeIntoDirty p skein256 output.length h >>= fun r =>
+            .ok (r.1.state.t0, r.1.state.t1, r.1.state.x, r.1.buffer, r.2))) ∧
+    (∀ (p : Profile) (h : Hasher) (n : Nat), n * 8 < 2 ^ 64 →
+      CC.Src.noMsg (CC.Gen.Kernels.skein256_reset p h.state.t0 h.state.t1 h.state.x h.buffer (BitVec.ofNat 64 n))
+        = CC.Src.noMsg (reset p skein256 n h >>= fun h' => .ok (CC.Src.skeinEnc h'))) ∧
+    (∀ (p : Profile) (st : State) (block : List (BitVec 8)) (k : Nat), block.length = 64 →
+      CC.Src.noMsg (CC.Gen.Kernels.skein512_process_block p st.t0 st.t1 st.x block k)
+        = CC.Src.noMsg (processBlock p skein512 st block k >>= fun s => .ok (CC.Src.skeinStateEnc s))) ∧
+    (∀ (p : Profile) (n : Nat), n * 8 < 2 ^ 64 →
+      CC.Src.noMsg (CC.Gen.Kernels.skein512_default p (BitVec.ofNat 64 n))
+        = CC.Src.noMsg (Model.default p skein512 n >>= fun h => .ok (CC.Src.skeinEnc h))) ∧
+    (∀ (p : Profile) (h : Hasher), h.buffer.buf.length = 64 → h.buffer.pos ≤ 64 → ∀ (data : List (BitVec 8)),
+      CC.Src.noMsg (CC.Gen.Kernels.skein512_update p h.state.t0 h.state.t1 h.state.x h.buffer data)
+        = CC.Src.noMsg (update p skein512 h data >>= fun h' => .ok (CC.Src.skeinEnc h'))) ∧
+    (∀ (p : Profile) (h : Hasher), h.buffer.pos ≤ 64 → h.buffer.buf.length = 64 → ∀ (output : List (BitVec 8)),
+      CC.Src.noMsg (CC.Gen.Kernels.skein512_finalize_into_dirty p h.state.t0 h.state.t1 h.state.x h.buffer output)
+        = CC.Src.noMsg (finalizeIntoDirty p skein512 output.length h >>= fun r =>
+            .ok (r.1.state.t0, r.1.state.t1, r.1.state.x, r.1.buffer, r.2))) ∧
+    (∀ (p : Profile) (h : Hasher) (n : Nat), n * 8 < 2 ^ 64 →
+      CC.Src.noMsg (CC.Gen.Kernels.skein512_reset p h.state.t0 h.state.t1 h.state.x h.buffer (BitVec.ofNat 64 n))
+        = CC.Src.noMsg (reset p skein512 n h >>= fun h' => .ok (CC.Src.skeinEnc h'))) ∧
+    (∀ (p : Profile) (st : State) (block : List (BitVec 8)) (k : Nat), block.length = 128 →
+      CC.Src.noMsg (CC.Gen.Kernels.skein1024_process_block p st.t0 st.t1 st.x block k)
+        = CC.Src.noMsg (processBlock p skein1024 st block k >>= fun s => .ok (CC.Src.skeinStateEnc s))) ∧
+    (∀ (p : Profile) (n : Nat), n * 8 < 2 ^ 64 →
+      CC.Src.noMsg (CC.Gen.Kernels.skein1024_default p (BitVec.ofNat 64 n))
+        = CC.Src.noMsg (Model.default p skein1024 n >>= fun h => .ok (CC.Src.skeinEnc h))) ∧
+    (∀ (p : Profile) (h : Hasher), h.buffer.buf.length = 128 → h.buffer.pos ≤ 128 → ∀ (data : List (BitVec 8)),
+      CC.Src.noMsg (CC.Gen.Kernels.skein1024_update p h.state.t0 h.state.t1 h.state.x h.buffer data)
+        = CC.Src.noMsg (update p skein1024 h data >>= fun h' => .ok (CC.Src.skeinEnc h'))) ∧
+    (∀ (p : Profile) (h : Hasher), h.buffer.pos ≤ 128 → h.buffer.buf.length = 128 → ∀ (output : List (BitVec 8)),
+      CC.Src.noMsg (CC.Gen.Kernels.skein1024_finalize_into_dirty p h.state.t0 h.state.t1 h.state.x h.buffer output)
+        = CC.Src.noMsg (finalizeIntoDirty p skein1024 output.length h >>= fun r =>
+            .ok (r.1.state.t0, r.1.state.t1, r.1.state.x, r.1.buffer, r.2))) ∧
+    (∀ (p : Profile) (h : Hasher) (n : Nat), n * 8 < 2 ^ 64 →
+      CC.Src.noMsg (CC.Gen.Kernels.skein1024_reset p h.state.t0 h.state.t1 h.state.x h.buffer (BitVec.ofNat 64 n))
+        = CC.Src.noMsg (reset p skein1024 n h >>= fun h' => .ok (CC.Src.skeinEnc h'))) ∧
+    CC.Gen.Kernels.skein_structs =
+      [("Skein256", "struct", ["state", "buffer", "_output"], ["Clone"], ["Default"]),
+       ("Skein512", "struct", ["state", "buffer", "_output"], ["Clone"], ["Default"]),
+       ("Skein1024", "struct", ["state", "buffer", "_output"], ["Clone"], ["Default"]),
+       ("State", "struct", ["t", "x"], ["Clone"], []),
+       ("Block", "union", ["bytes", "words"], ["Clone", "Copy"], [])] :=
+  ⟨CC.Src.src_skein_clean,
+   fun p st block k hb => CC.Src.src_skein256_process_block p st block k hb,
+   fun p n hn => CC.Src.src_skein256_default p n hn,
+   fun p h hb hp data => CC.Src.src_skein256_update p h hb hp data,
+   fun p h hp hb output => CC.Src.src_skein256_finalize_into_dirty p h hp hb output,
+   fun p h n hn => CC.Src.src_skein256_reset p h n hn,
+   fun p st block k hb => CC.Src.src_skein512_process_block p st block k hb,
+   fun p n hn => CC.Src.src_skein512_default p n hn,
+   fun p h hb hp data => CC.Src.src_skein512_update p h hb hp data,
+   fun p h hp hb output => CC.Src.src_skein512_finalize_into_dirty p h hp hb output,
+   fun p h n hn => CC.Src.src_skein512_reset p h n hn,
+   fun p st block k hb => CC.Src.src_skein1024_process_block p st block k hb,
+   fun p n hn => CC.Src.src_skein1024_default p n hn,
+   fun p h hb hp data => CC.Src.src_skein1024_update p h hb hp data,
+   fun p h hp hb output => CC.Src.src_skein1024_finalize_into_dirty p h hp hb output,
+   fun p h n hn => CC.Src.src_skein1024_reset p h n hn,
+   CC.Src.src_skein_structs⟩
+
 end CC.Thm.C05
